@@ -17,8 +17,10 @@ package orchestrator
 import (
 	"context"
 	"fmt"
+	"slices"
 
 	"github.com/conduitio/conduit-commons/rollback"
+	"github.com/conduitio/conduit/pkg/connector"
 	"github.com/conduitio/conduit/pkg/foundation/cerrors"
 	"github.com/conduitio/conduit/pkg/inspector"
 	"github.com/conduitio/conduit/pkg/pipeline"
@@ -44,7 +46,7 @@ func (p *ProcessorOrchestrator) Create(
 	}
 	r.AppendPure(txn.Discard)
 
-	pl, err := p.getProcessorsPipeline(ctx, parent)
+	pl, _, err := p.getProcessorsPipeline(ctx, parent)
 	if err != nil {
 		return nil, err
 	}
@@ -169,7 +171,7 @@ func (p *ProcessorOrchestrator) Update(ctx context.Context, id string, plugin st
 	oldPlugin := proc.Plugin
 	oldConfig := proc.Config
 
-	pl, err := p.getProcessorsPipeline(ctx, proc.Parent)
+	pl, _, err := p.getProcessorsPipeline(ctx, proc.Parent)
 	if err != nil {
 		return nil, err
 	}
@@ -221,7 +223,7 @@ func (p *ProcessorOrchestrator) Delete(ctx context.Context, id string) error {
 		return immutableProvisionedByConfigErr(fmt.Sprintf("processor %q cannot be deleted", proc.ID))
 	}
 
-	pl, err := p.getProcessorsPipeline(ctx, proc.Parent)
+	pl, conn, err := p.getProcessorsPipeline(ctx, proc.Parent)
 	if err != nil {
 		return err
 	}
@@ -237,27 +239,41 @@ func (p *ProcessorOrchestrator) Delete(ctx context.Context, id string) error {
 		return err
 	}
 	r.Append(func() error {
-		_, err = p.processors.Create(ctx, id, proc.Plugin, proc.Parent, proc.Config, processor.ProvisionTypeAPI, proc.Condition)
+		restored, err := p.processors.Create(ctx, id, proc.Plugin, proc.Parent, proc.Config, processor.ProvisionTypeAPI, proc.Condition)
+		if err == nil {
+			// bring back the processor that was deleted, not a new one
+			restored.CreatedAt, restored.UpdatedAt = proc.CreatedAt, proc.UpdatedAt
+		}
 		return err
 	})
 
 	switch proc.Parent.Type {
 	case processor.ParentTypePipeline:
+		oldIDs, oldUpdatedAt := slices.Clone(pl.ProcessorIDs), pl.UpdatedAt
 		_, err = p.pipelines.RemoveProcessor(ctx, pl.ID, proc.ID)
 		if err != nil {
 			return cerrors.Errorf("could not add processor to pipeline: %w", err)
 		}
 		r.Append(func() error {
-			_, err := p.pipelines.AddProcessor(ctx, pl.ID, proc.ID)
+			restored, err := p.pipelines.AddProcessor(ctx, pl.ID, proc.ID)
+			if err == nil {
+				// AddProcessor appends, the processor has to get its old place back
+				restored.ProcessorIDs, restored.UpdatedAt = oldIDs, oldUpdatedAt
+			}
 			return err
 		})
 	case processor.ParentTypeConnector:
+		oldIDs, oldUpdatedAt := slices.Clone(conn.ProcessorIDs), conn.UpdatedAt
 		_, err = p.connectors.RemoveProcessor(ctx, proc.Parent.ID, proc.ID)
 		if err != nil {
 			return cerrors.Errorf("could not add processor to connector: %w", err)
 		}
 		r.Append(func() error {
-			_, err := p.connectors.AddProcessor(ctx, proc.Parent.ID, proc.ID)
+			restored, err := p.connectors.AddProcessor(ctx, proc.Parent.ID, proc.ID)
+			if err == nil {
+				// AddProcessor appends, the processor has to get its old place back
+				restored.ProcessorIDs, restored.UpdatedAt = oldIDs, oldUpdatedAt
+			}
 			return err
 		})
 	default:
@@ -276,19 +292,23 @@ func (p *ProcessorOrchestrator) Delete(ctx context.Context, id string) error {
 	return err
 }
 
-func (p *ProcessorOrchestrator) getProcessorsPipeline(ctx context.Context, parent processor.Parent) (*pipeline.Instance, error) {
+// getProcessorsPipeline returns the pipeline the processor belongs to and, if
+// the parent is a connector, that connector.
+func (p *ProcessorOrchestrator) getProcessorsPipeline(ctx context.Context, parent processor.Parent) (*pipeline.Instance, *connector.Instance, error) {
 	switch parent.Type {
 	case processor.ParentTypePipeline:
-		return p.pipelines.Get(ctx, parent.ID)
+		pl, err := p.pipelines.Get(ctx, parent.ID)
+		return pl, nil, err
 	case processor.ParentTypeConnector:
 		conn, err := p.connectors.Get(ctx, parent.ID)
 		if err != nil {
-			return nil, err
+			return nil, nil, err
 		}
-		return p.pipelines.Get(ctx, conn.PipelineID)
+		pl, err := p.pipelines.Get(ctx, conn.PipelineID)
+		return pl, conn, err
 	default:
 		// Invariant: errors.Is(err, ErrInvalidProcessorParentType) still holds —
 		// sentinel wrapped, ConduitError adds the code.
-		return nil, invalidProcessorParentTypeErr(fmt.Sprintf("%s: %s", ErrInvalidProcessorParentType, parent.Type))
+		return nil, nil, invalidProcessorParentTypeErr(fmt.Sprintf("%s: %s", ErrInvalidProcessorParentType, parent.Type))
 	}
 }
